@@ -76,6 +76,7 @@ def run(F, rep, tier):
     guarded_arms_lower_alike(F, rep, T)
     lowers_only_what_was_written(F, rep)
     children_lowered_as_written(F, rep)
+    instruction_lists_are_only_joined(F, rep)
     # an early `ret` / `break` can be followed by further statements of its block: the emitter wraps it (`do return x end`) -
     # a bare Lua `return` must be the last statement of its block (shared with C06)
     import core as _core
@@ -516,6 +517,35 @@ def lowers_only_what_was_written(F, rep, rule="IRP-synth"):
            "rule means - `not (x >= 0.0)` rewritten to `x < 0.0` answers false for NaN where the program says true" % (
                last(bad[0][0]["_path"], 2), pp(bad[0][2])[:60]), line_of(bad[0][1]) if bad else None)
     rep.floor(rule, "recursive lowering calls", n, 20)
+
+
+def instruction_lists_are_only_joined(F, rep, rule="IRP-list"):
+    """The lowering builds the instruction list of a construct by putting the lists of its parts one after the other.  It never
+    takes instructions out of a list, filters, sorts or partitions one: where an instruction stands decides the Lua block a
+    `local` belongs to (a declaration moved out of a nested function literal becomes an upvalue shared by all its activations)
+    and the order in which effects happen."""
+    IRG = "sylt_compiler::intermediate::"
+    REARRANGE = {"partition", "retain", "sort", "sort_by", "sort_by_key", "sort_unstable", "sort_unstable_by", "sort_unstable_by_key",
+                 "dedup", "dedup_by", "dedup_by_key", "reverse", "rev", "swap", "remove", "swap_remove", "drain", "filter", "filter_map",
+                 "skip", "take", "skip_while", "take_while", "split_off", "truncate", "rotate_left", "rotate_right", "drain_filter", "extract_if"}
+    bad = []
+    n = 0
+    for fn in F.fns_in(IRG):
+        if last(fn["_path"]) in ("count_usages",):
+            continue
+        for c in nodes(fn_body(fn), "MethodCall"):
+            rt = (c.get("recv_ty") or "")
+            if "intermediate::IR" not in rt:
+                continue
+            n += 1
+            if c["m"] in REARRANGE:
+                bad.append((fn, c))
+    rep.ob(rule, "instruction-lists-are-only-joined", not bad,
+           "no instruction list is filtered, partitioned, sorted or cut (%d operations on instruction lists)" % n if not bad else
+           "%s rearranges an instruction list (`.%s()`): instructions that were emitted inside a nested construct end up somewhere "
+           "else - the result temporaries of a nested function literal declared in the enclosing function are shared by all its "
+           "activations" % (last(bad[0][0]["_path"], 2), bad[0][1]["m"]), line_of(bad[0][1]) if bad else None)
+    rep.floor(rule, "operations on instruction lists", n, 10)
 
 
 def children_lowered_as_written(F, rep, rule="IRP-child"):
